@@ -11,9 +11,14 @@ pub fn absolute<T: AsRef<Path>>(path: T) -> Result<PathBuf, E> {
     for comp in path.components() {
         match comp {
             C::CurDir => (),
-            C::ParentDir => {
-                out.pop().ok_or(E::CannotBeExported(ERROR_MESSAGE))?;
-            }
+            C::ParentDir => match out.last() {
+                // only a directory name can be left again; `..` at the root (or at a prefix)
+                // would otherwise pop the root and turn the path into a relative one
+                Some(C::Normal(_)) => {
+                    out.pop();
+                }
+                _ => return Err(E::CannotBeExported(ERROR_MESSAGE)),
+            },
             comp => out.push(comp),
         }
     }
